@@ -21,7 +21,14 @@ pub enum Op {
     Resolve { host: usize, case_var: u8, timeout_ms: Option<u64> },
     StopResolve { host: usize, case_var: u8 },
     /// A responder announces instance `inst` of type `ty` (full record set).
-    Announce { ty: usize, inst: usize, ttl: u32 },
+    Announce {
+        ty: usize,
+        inst: usize,
+        ttl: u32,
+        /// 0 = full record set, 1 = PTR and TXT only, 2 = PTR and SRV only, 3 = PTR only
+        #[serde(default)]
+        part: u8,
+    },
     Goodbye { ty: usize, inst: usize },
     /// A responder answers for a host name with an address.
     HostAddr { host: usize, case_var: u8, ttl: u32 },
@@ -84,6 +91,8 @@ pub struct Run {
     pub host_chans: Vec<ChanInfo>,
     pub shutdown_pos: Option<usize>,
     pub end_of_ops_pos: usize,
+    /// get_metrics() at the end of the history (not after a shutdown)
+    pub final_metrics: Option<std::collections::HashMap<String, i64>>,
 }
 
 pub fn execute(case: &Case, seed: u64) -> Result<Run, String> {
@@ -197,10 +206,17 @@ pub fn execute(case: &Case, seed: u64) -> Result<Run, String> {
                     }
                 }
             }
-            Op::Announce { ty, inst, ttl } => {
+            Op::Announce { ty, inst, ttl, part } => {
                 let s = svc(*ty, *inst);
                 let other = (*ttl).max(2);
-                let bytes = peer::response(s.announcement((*ttl).clamp(2, 120), other), vec![]);
+                let mut recs = s.announcement((*ttl).clamp(2, 120), other);
+                match part {
+                    1 => recs.retain(|r| r.rtype == T_PTR || r.rtype == T_TXT),
+                    2 => recs.retain(|r| r.rtype == T_PTR || r.rtype == T_SRV),
+                    3 => recs.retain(|r| r.rtype == T_PTR),
+                    _ => {}
+                }
+                let bytes = peer::response(recs, vec![]);
                 dm.inject(if_index(0), src_for(&case.ifs, 0, 100 + *inst as u8), bytes);
             }
             Op::Goodbye { ty, inst } => {
@@ -231,6 +247,13 @@ pub fn execute(case: &Case, seed: u64) -> Result<Run, String> {
     }
     let end_of_ops_pos = w.daemons[di].log.len();
     w.advance(case.tail_ms);
+    let final_metrics = if shutdown_pos.is_none() {
+        let now = w.now;
+        w.daemons[di].set_now(now);
+        w.daemons[di].metrics()
+    } else {
+        None
+    };
     Ok(Run {
         world: w,
         di,
@@ -238,6 +261,7 @@ pub fn execute(case: &Case, seed: u64) -> Result<Run, String> {
         host_chans,
         shutdown_pos,
         end_of_ops_pos,
+        final_metrics,
     })
 }
 
@@ -431,6 +455,20 @@ fn judge(case: &Case, run: &Run, ctx: &mut CaseCtx) {
             }
         }
     }
+    // ---- forgetting: with every browse stopped the cache holds no service records any more
+    // (records only enter the cache with a PTR answer of a type browsed at that moment)
+    let mut forget_checked = false;
+    if let Some(m) = &run.final_metrics {
+        let any_open = run.browse_chans.iter().any(|c| c.stopped.is_none());
+        let any_stopped = run.browse_chans.iter().any(|c| c.stopped.is_some());
+        if !any_open && any_stopped && !case.accept_unsolicited {
+            forget_checked = true;
+            let left: Vec<String> = ["cached-ptr", "cached-srv", "cached-txt"].iter().filter(|k| m.get(**k).copied().unwrap_or(0) != 0).map(|k| format!("{k}={}", m[*k])).collect();
+            if !left.is_empty() {
+                fail!("C13/forget/records-still-cached-after-stop", "every browse was stopped, yet get_metrics() at the end reports {}", left.join(", "));
+            }
+        }
+    }
     // ---- hostname channels
     let mut mixed_case_end = false;
     for (ci, c) in run.host_chans.iter().enumerate() {
@@ -537,6 +575,7 @@ fn judge(case: &Case, run: &Run, ctx: &mut CaseCtx) {
     let n_timeouts = run.host_chans.iter().filter(|c| c.timeout_at.is_some()).count();
     ctx.class_if(stop_with_pending_retransmission, "stop-with-cached-records-and-pending-retransmission");
     ctx.class_if(n_stops > 0, "explicit-stop");
+    ctx.class_if(forget_checked, "all-browses-stopped:cache-counted");
     ctx.class_if(n_timeouts > 0, "resolver-with-timeout");
     ctx.class_if(mixed_case_end, "mixed-case-host-ended");
     ctx.class_if(run.shutdown_pos.is_some(), "shutdown");
@@ -572,7 +611,8 @@ pub fn strategy() -> BoxedStrategy<Case> {
         3 => (0usize..2).prop_map(|ty| Op::StopBrowse { ty }),
         3 => (0usize..3, 0u8..4, proptest::option::weighted(0.5, prop_oneof![Just(1u64), Just(500), Just(2000), Just(20_000), 1u64..100_000])).prop_map(|(host, case_var, timeout_ms)| Op::Resolve { host, case_var, timeout_ms }),
         2 => (0usize..3, 0u8..4).prop_map(|(host, case_var)| Op::StopResolve { host, case_var }),
-        4 => (0usize..2, 0usize..3, prop_oneof![Just(120u32), Just(10), Just(4500), 2u32..200]).prop_map(|(ty, inst, ttl)| Op::Announce { ty, inst, ttl }),
+        4 => (0usize..2, 0usize..3, prop_oneof![Just(120u32), Just(10), Just(4500), 2u32..200]).prop_map(|(ty, inst, ttl)| Op::Announce { ty, inst, ttl, part: 0 }),
+        2 => (0usize..2, 0usize..3, prop_oneof![Just(120u32), Just(4500)], 1u8..4).prop_map(|(ty, inst, ttl, part)| Op::Announce { ty, inst, ttl, part }),
         1 => (0usize..2, 0usize..3).prop_map(|(ty, inst)| Op::Goodbye { ty, inst }),
         2 => (0usize..3, 0u8..4, prop_oneof![Just(120u32), 2u32..100]).prop_map(|(host, case_var, ttl)| Op::HostAddr { host, case_var, ttl }),
         6 => prop_oneof![Just(0u64), Just(400), Just(1000), Just(3100), Just(20_000), 0u64..10_000, 0u64..200_000].prop_map(|ms| Op::Advance { ms }),
